@@ -89,7 +89,7 @@ Proof.
     assert (Hnl1 : nolj (rs s1)) by exact (i_nolj _ _ C1). rewrite Hr1 in Hnl1. inversion Hnl1 as [|? ? Hvlj _]; subst.
     destruct (follow_chain [true] sl r s4 [set_written vtop] Lb 0 (fuel_of s4)) as [s5 [F1 [F2 [F3 [F4 [F5 [F6 F7]]]]]]].
     + discriminate.
-    + exists true. intros x [Hx|Hx]; [auto|contradiction].
+    + exact I.
     + exact Hv.
     + reflexivity.
     + cbn [map chain]. rewrite proj_set_written, Hpv. reflexivity.
